@@ -92,6 +92,7 @@ int main(int argc, char ** argv) {
     for (int k = 0; k < SH[j].nfound; k++) { char arg[60]; snprintf(arg, sizeof arg, "--tier %s --conf %d", tier ? "thorough" : "quick", atoi(SH[j].fkey[k] + 5)); sq_found(SH[j].fkey[k], arg, "%s", SH[j].found[k]); }
   }
   if (capped) SQ.exhaustive = 0;
+  if (SQ.states == 0) { SQ.engine_error = 1; fprintf(stderr, "ENGINE-ERROR no state explored (configuration too large for unitmc.c REGION_MAX?)\n"); }   /* never report a vacuous run as a pass */
   sq_detail("%d configurations (A x B x optional C programs over create / delete-own x memory model) each explored exhaustively; %ld capped", nconf, capped);
   sq_sample("SC A='c' B='ccd' C='c'"); sq_sample("TSO A='cc' B='cdc' C=-");
   return sq_end(stats);
